@@ -330,6 +330,35 @@ func genC11(g *G) {
 		g.Emit("sset", genSetOps(g, true, n))
 		g.Emit("mset", genSetOps(g, false, n))
 	}
+	// long histories: growth far beyond the small sets above, shrinking to a fraction, Clear of a
+	// large set, then more use (storage-management code only runs at such sizes)
+	for _, size := range []int{33, 64, 100, 300, 1025, 1100, 2100} {
+		for _, keep := range []int{0, 1, size / 8, size / 4, size / 2} {
+			var ops []string
+			ops = append(ops, "n")
+			for v := 0; v < size; v++ {
+				ops = append(ops, "a0,"+I(v))
+			}
+			ops = append(ops, "l0", "k0")
+			for v := size - 1; v >= keep; v-- {
+				ops = append(ops, "d0,"+I(v))
+				if v == size/4 || v == size/4+1 || v == keep {
+					ops = append(ops, "l0", "v0")
+				}
+			}
+			ops = append(ops, "l0", "v0", "e0,1", "h0,0", "a0,7", "a0,"+I(size+5), "v0", "l0", "r0,-1", "l1")
+			g.Emit("sset", strings.Join(ops, " "))
+			g.Emit("mset", strings.Join(ops, " "))
+		}
+		var ops []string
+		ops = append(ops, "n")
+		for v := 0; v < size; v++ {
+			ops = append(ops, "a0,"+I(v))
+		}
+		ops = append(ops, "k0", "c0", "l0", "v0", "h0,3", "a0,1", "a0,2", "d0,1", "l0", "v0", "e0,1", "l1", "c1", "l1", "e0,1")
+		g.Emit("sset", strings.Join(ops, " "))
+		g.Emit("mset", strings.Join(ops, " "))
+	}
 }
 
 func init() {
